@@ -4,5 +4,5 @@ CONSTANTS
   MAXSTEPS = 0
   MAXTICK = 3
   MAXLEN = 3
-  STRIDE = 40
+  STRIDE = 80
 CHECK_DEADLOCK FALSE
